@@ -382,6 +382,34 @@ func c17(r *vc.Run) int {
 		res := runChild(bin, "c17", sc, filepath.Join(r.Scratch, fmt.Sprintf("c17-%d", i)), 15*time.Minute)
 		absorb(r, m, res, label, sc, true)
 	})
+	// pipeline level: counters against the events of full-pipeline runs (same child as C01)
+	pipeRuns := c01Matrix(r, r.N(6, 36))
+	pm := newMerged()
+	comparisons := 0
+	var cmu sync.Mutex
+	parallel(len(pipeRuns), 12, func(i int) {
+		sc := pipeRuns[i]
+		sc.Index += 5000
+		dir := filepath.Join(r.Scratch, fmt.Sprintf("c17-pipe-%d", i))
+		res := runChild(os.Getenv("VZ_BIN"), "pipe-c01", sc, dir, 6*time.Minute)
+		sink := &discardSink{}
+		rep := absorb(sink, pm, res, fmt.Sprintf("pipeline-run%d", i), sc, false)
+		if rep != nil {
+			cmu.Lock()
+			comparisons += rep.Events["c17_counter_comparisons"]
+			cmu.Unlock()
+			if l, ok := rep.Extra["c17"].([]any); ok {
+				for _, v := range l {
+					if mm, ok := v.(map[string]any); ok {
+						r.Violation(fmt.Sprint(mm["sig"]), fmt.Sprintf("pipeline-run%d: %v", i, mm["what"]), map[string]any{"scenario": sc})
+					}
+				}
+			}
+		} else {
+			r.Inconclusive("pipeline-run-no-report")
+		}
+		os.RemoveAll(dir)
+	})
 	for s, n := range m.Races {
 		if s == "harness-only" {
 			r.Note("race report x%d with harness frames only (machinery defect, not Zeno)", n)
@@ -396,6 +424,9 @@ func c17(r *vc.Run) int {
 		"samples":             m.Samples,
 		"events":              m.Events,
 		"children":           m.Children,
+		"pipeline_runs":      len(pipeRuns),
+		"pipeline_counter_comparisons": comparisons,
+		"pipeline_events":    map[string]int{"seeds_inserted": pm.Events["seeds_inserted"], "origin_requests": pm.Events["origin_requests"]},
 	}
 	if cov["samples"] == nil {
 		cov["samples"] = []any{}
@@ -403,6 +434,7 @@ func c17(r *vc.Run) int {
 	return r.Finish("exploration", cov, []string{
 		"reads of the two-word mean taken during a burst are unconstrained; reads after quiescence and all single-word reads are constrained",
 		"rate.reset() keeps the running total by design (model: reset leaves the total unchanged)",
-		"in the stats package itself a race-detector report decides (the primitives have no benign races); pipeline-level counter exactness is checked with C01's runs",
+		"in the stats package itself a race-detector report decides (the primitives have no benign races)",
+		"pipeline level: at quiescence of full-pipeline runs, URLs crawled == archiver item goroutines ended, seeds finished == finish notifications, per-status totals == archived items, worker gauges == configured workers while running and 0 after stop, mean == sum/count",
 	}, 50)
 }
